@@ -171,6 +171,8 @@ def gen_param_case(rng, tier):
         old = rng.choice(pnames)
         d["adds"].append({"old": old, "new": "X", "scale": rng.choice([2, 3]), "default": rng.randint(-4, 4) / 8.0})
         d["defaults"].pop(old, None)
+        if rng.random() < 0.6:
+            d["defaults"]["X"] = rng.randint(-4, 4) / 8.0 + 0.0625      # the new parameter's default changed after add_param
     visible = [n for n in pnames if n not in [a["old"] for a in d["adds"]]] + [a["new"] for a in d["adds"]] + ["wl"]
     for _ in range(2):
         kw = {n: rng.randint(-8, 8) / 8.0 + (1.5 if n == "wl" else 0.0) for n in visible if rng.random() < 0.5}
